@@ -179,4 +179,194 @@ def Ev.isFault : Ev → Bool
   | .fault _ _ => true
   | _ => false
 
+/-! ### the builder: which endpoint `build` creates
+
+`PrometheusBuilder` carries two independent pieces of listener configuration: `exporter_config`
+(`ExporterConfig::HttpListener { destination: Tcp(addr) | Uds(path) }` or `PushGateway { .. }`; `new()` starts with
+`Tcp(0.0.0.0:9000)`) and `allowed_addresses`.  `with_http_listener`, `with_http_uds_listener` and
+`with_push_gateway` overwrite the first and never touch the second; `add_allowed_address` appends to the second
+and never touches the first.  `build` takes the allowlist (`self.allowed_addresses.take()`) and hands it to
+`new_http_listener(handle, addr, allowed_addresses)` for a TCP destination; `new_http_uds_listener(handle, path)`
+does not receive it and stores `allowed_addresses: None`; the push gateway has no listener at all.
+Socket addresses and paths are opaque numbers here (the harness sends the port / a path id). -/
+
+/-- `ExporterConfig` with `ListenDestination` flattened -/
+inductive Dest
+  | tcp (addr : Nat)
+  | uds (path : Nat)
+  | push
+  deriving DecidableEq, Repr, Inhabited
+
+/-- the two listener-related fields of `PrometheusBuilder` -/
+structure Builder where
+  dest : Dest
+  allowed : Option (List Net)
+  deriving DecidableEq, Repr, Inhabited
+
+/-- the opaque number standing for `0.0.0.0:9000` -/
+def defaultListen : Nat := 9000
+
+/-- `PrometheusBuilder::new()` (feature `http-listener`): listener on `0.0.0.0:9000`, no allowlist -/
+def Builder.new : Builder := ⟨.tcp defaultListen, none⟩
+
+/-- a builder call that concerns the listener -/
+inductive BOp
+  /-- `with_http_listener(addr)` -/
+  | httpListener (addr : Nat)
+  /-- `with_http_uds_listener(path)` -/
+  | udsListener (path : Nat)
+  /-- `with_push_gateway(..)` with a valid endpoint -/
+  | pushGateway
+  /-- `add_allowed_address(text)` -/
+  | allow (e : Entry)
+  deriving Repr, Inhabited
+
+/-- one builder call; `none` = the call returned `Err` (the builder is consumed) -/
+def Builder.apply (b : Builder) : BOp → Option Builder
+  | .httpListener a => some { b with dest := .tcp a }
+  | .udsListener p => some { b with dest := .uds p }
+  | .pushGateway => some { b with dest := .push }
+  | .allow e => (addAllowed b.allowed e).map (fun al => { b with allowed := al })
+
+/-- a chain of builder calls -/
+def Builder.applyAll (b : Builder) : List BOp → Option Builder
+  | [] => some b
+  | o :: os => match b.apply o with
+    | none => none
+    | some b' => b'.applyAll os
+
+/-- the `add_allowed_address` arguments of a chain, in call order -/
+def entriesOf : List BOp → List Entry
+  | [] => []
+  | .allow e :: os => e :: entriesOf os
+  | _ :: os => entriesOf os
+
+/-- the destination after a chain: the last destination call wins -/
+def lastDest (d : Dest) : List BOp → Dest
+  | [] => d
+  | .httpListener a :: os => lastDest (.tcp a) os
+  | .udsListener p :: os => lastDest (.uds p) os
+  | .pushGateway :: os => lastDest .push os
+  | .allow _ :: os => lastDest d os
+
+/-- what `build` starts -/
+inductive Endpoint
+  /-- `new_http_listener(handle, addr, allowed_addresses)` -/
+  | tcp (addr : Nat) (al : Option (List Net))
+  /-- `new_http_uds_listener(handle, path)`: `allowed_addresses: None` -/
+  | uds (path : Nat)
+  /-- push gateway: nothing listens -/
+  | nolistener
+  deriving DecidableEq, Repr, Inhabited
+
+/-- `PrometheusBuilder::build` (the listener part; bind errors are the environment's) -/
+def Builder.build (b : Builder) : Endpoint :=
+  match b.dest with
+  | .tcp a => .tcp a b.allowed
+  | .uds p => .uds p
+  | .push => .nolistener
+
+/-- who connects: a TCP client (address and source port as `peer_addr()` reports them) or a unix-socket client -/
+inductive Peer
+  | ip (a : Addr) (port : Nat)
+  | unix
+  deriving DecidableEq, Repr, Inhabited
+
+/-- `is_allowed` of a connection accepted by this endpoint: `process_tcp_stream` uses `check_tcp_allowed`
+    (which reads `peer_addr().ip()` only — the port plays no part), `process_uds_stream` passes `true`;
+    `none`: this peer cannot reach this endpoint (other transport, or nothing listens) -/
+def Endpoint.isAllowed : Endpoint → Peer → Option Bool
+  | .tcp _ al, .ip a _ => some (checkAllowed al a)
+  | .uds _, .unix => some true
+  | _, _ => none
+
+/-- a well-formed HTTP/1.1 request as the handler receives it -/
+structure Req where
+  method : List Char
+  target : List Char
+  headers : List (List Char × List Char)
+  deriving DecidableEq, Repr, Inhabited
+
+/-- `"HEAD"` -/
+def headMethod : List Char := ['H', 'E', 'A', 'D']
+
+/-- hyper's HTTP/1 encoder: the response to a `HEAD` request carries no body bytes (status and headers as for
+    `GET`); everything else is written as the handler returned it -/
+def wire (method : List Char) (r : Resp) : Resp :=
+  if method = headMethod then ⟨r.status, []⟩ else r
+
+/-- the `service_fn` closure of `process_tcp_stream` / `process_uds_stream`:
+    `handle_http_request(is_allowed, handle.clone(), req)` — of the request only `req.uri().path()` is read;
+    method, headers and body are never looked at -/
+def serveReq (isAllowed : Bool) (rendered : List Char) (q : Req) : Resp :=
+  wire q.method (handleHttpRequest isAllowed rendered (pathOf q.target))
+
+/-- what the accept loop does in its `Err(e)` arm -/
+inductive LoopAct
+  /-- `warn!(..); continue` — what `serve_tcp` / `serve_uds` do -/
+  | continue
+  /-- leave the loop (`break`, `return`, `?`): the exporter future ends, nothing accepts any more -/
+  | exit
+  deriving DecidableEq, Repr, Inhabited
+
+/-- events at an endpoint -/
+inductive Ev2
+  /-- the application updates its metrics -/
+  | update (n : Nat)
+  /-- an accepted connection from `peer` carrying these well-formed requests in order (keep-alive / pipelined) -/
+  | conn (peer : Peer) (reqs : List Req)
+  /-- a connection that never yields a well-formed request -/
+  | fault (kind : Nat) (peer : Peer)
+  /-- `listener.accept()` returned `Err` (EMFILE, ECONNABORTED, …) -/
+  | acceptErr (errno : Nat)
+  deriving Repr, Inhabited
+
+/-- the endpoint over time: `running` = the accept loop is still being polled -/
+structure Sess2 where
+  ep : Endpoint
+  metrics : Nat
+  running : Bool
+  deriving Repr, Inhabited
+
+/-- the state right after `build` + spawn -/
+def Sess2.start (ep : Endpoint) : Sess2 := ⟨ep, 0, true⟩
+
+/-- one event; the answers written on that connection (`[]` for anything that is not a served connection).
+    `arm` is the action of the accept loop's error arm (`LoopAct.continue` in the code). -/
+def stepEv2 (arm : LoopAct) (render : Nat → List Char) (s : Sess2) : Ev2 → Sess2 × List Resp
+  | .update n => ({ s with metrics := s.metrics + n }, [])
+  | .conn peer reqs =>
+    if s.running then
+      match s.ep.isAllowed peer with
+      | some ok => (s, reqs.map (serveReq ok (render s.metrics)))
+      | none => (s, [])
+    else (s, [])
+  | .fault _ _ => (s, [])
+  | .acceptErr _ =>
+    match arm with
+    | .continue => (s, [])
+    | .exit => ({ s with running := false }, [])
+
+/-- the answers of a history, one list per event (in event order) -/
+def run2 (arm : LoopAct) (render : Nat → List Char) (s : Sess2) : List Ev2 → List (List Resp)
+  | [] => []
+  | e :: es => (stepEv2 arm render s e).2 :: run2 arm render (stepEv2 arm render s e).1 es
+
+/-- the final state of a history -/
+def runState2 (arm : LoopAct) (render : Nat → List Char) (s : Sess2) : List Ev2 → Sess2
+  | [] => s
+  | e :: es => runState2 arm render (stepEv2 arm render s e).1 es
+
+/-- events that are not served connections or metric updates -/
+def Ev2.isNoise : Ev2 → Bool
+  | .fault _ _ => true
+  | .acceptErr _ => true
+  | _ => false
+
+/-- a first-layer event seen at the second layer: a `GET` without headers from source port `port` -/
+def Ev.lift (port : Nat) : Ev → Ev2
+  | .update n => .update n
+  | .req peer target => .conn (.ip peer port) [⟨['G', 'E', 'T'], target, []⟩]
+  | .fault k peer => .fault k (.ip peer port)
+
 end MetricsVerif.Allowlist
